@@ -474,7 +474,10 @@ class Array(metaclass=MetaArray):
             )
             coffset += 8 * len(header)
         if not cls._is_static_type:
-            Int64._array_to_buffer(buffer, coffset, info.offsets)
+            # the table is addressed through the strides: store it in memory order
+            Int64._array_to_buffer(
+                buffer, coffset, np.transpose(info.offsets, info.order)
+            )
             coffset += 8 * len(info.offsets)
         if hasattr(cls._itemtype, "_dtype") and hasattr(
             value, "dtype"
